@@ -6,7 +6,7 @@ from .common import CLIENTS, REAL_NET, STUB_NET, ASSUME_NET, gen_config, viol
 ID = "C13"
 ENGINE = "netsim"
 LEVEL = "exploration"
-RUNS = {"quick": 20000, "thorough": 600000}
+RUNS = {"quick": 30000, "thorough": 1200000}
 BUDGET_S = {"quick": 45, "thorough": 480}
 BATCH = 40
 RECOVER_S = 120.0
